@@ -39,6 +39,9 @@ type Sub struct {
 }
 
 type Z int
+
+// Al is an alias declaration (generators that implement GenerateAliasType are called for it).
+type Al = map[string]int
 `,
 		"p/p.go": `// Package p docs. It alone enables the generator "na" through a package-level tag.
 // +gengo:na
@@ -62,6 +65,9 @@ type Sub struct {
 type Named map[string]string
 
 type Z int
+
+// Al is an alias declaration (generators that implement GenerateAliasType are called for it).
+type Al = map[string]int
 `,
 		"q/q.go": `// Package q switches the generator n1 off for itself through a package-level tag (later packages keep it).
 // +gengo:n1=false
@@ -78,6 +84,9 @@ type A struct {
 type Sub struct {
 	Y int
 }
+
+// Al is an alias declaration (generators that implement GenerateAliasType are called for it).
+type Al = map[string]int
 `,
 		"r/r.go": `package r
 
@@ -95,6 +104,9 @@ type R struct {
 type A struct {
 	V int
 }
+
+// Al is an alias declaration (generators that implement GenerateAliasType are called for it).
+type Al = map[string]int
 `,
 		"s/s.go": `package s
 
@@ -110,6 +122,9 @@ type S struct {
 }
 
 type Sub struct{ Z []string }
+
+// Al is an alias declaration (generators that implement GenerateAliasType are called for it).
+type Al = map[string]int
 `,
 	}
 }
